@@ -118,6 +118,26 @@ def selftest_binding(ck, jobs, out):
     return all(v == "rejected" for v in results.values())
 
 
+def sched_plan(tier, rng):
+    """forests for the SluSched replay: exhaustive state graphs (one implementation test per transition) and sampled behaviours"""
+    plan, sim = [], []
+    quick = tier == "quick"
+
+    def item(f, P):
+        return (f, forests.min_sbnd(f), P, rng.choice([1, 2, 3]), rng.choice([1, 2, 3]), rng.choice([2, 3, 4]), rng.choice(["max", "max", "none"]))
+    for f in forests.all_forests(4) + (forests.all_forests(5) if not quick else rng.sample(forests.all_forests(5), 8)):
+        plan.append(item(f, 2))
+    for f in forests.all_forests(3) + ([] if quick else forests.all_forests(4)):
+        plan.append(item(f, 3))
+    for _ in range(8 if quick else 60):
+        n = rng.randint(6, 9 if quick else 11)
+        plan.append(item(forests.random_forest(n, rng, chain_bias=rng.choice([0.3, 0.6]), root_prob=0.2), 2))
+    for _ in range(6 if quick else 60):
+        n = rng.randint(10, 16 if quick else 28)
+        sim.append(item(forests.random_forest(n, rng, chain_bias=rng.choice([0.3, 0.6]), root_prob=0.2), rng.choice([3, 4, 6])) + (300 if quick else 3000, 400))
+    return plan, sim
+
+
 def main(tier):
     ck = common.Check("C03", tier, "model_checking")
     rng = random.Random(ck.seed * 1000003 + 3)
@@ -125,13 +145,19 @@ def main(tier):
     ck.cov["rule"] = ("model: one exhaustive TLC run of SluPipe per (postordered forest, H-partition, P, panel size, relax, maxsuper), "
                       "distinct = distinct tuples whose run finished; implementation: one recorded multithreaded factorization per job "
                       "(random/structured matrix, thread count, tuning parameters, perturbation seed), validated event by event against "
-                      "SluPipeTrace with all invariants; a job is non-trivial if >= 2 workers took panels (all jobs use P >= 2)")
+                      "SluPipeTrace with all invariants; a job is non-trivial if >= 2 workers took panels (all jobs use P >= 2); "
+                      "replay: per forest, every transition of SluSched's state graph executed on the real ParallelInit / pxgstrf_scheduler / "
+                      "pxgstrf_mark_busy_descends with outputs and complete scheduler state compared (traces_validated counts these tests too)")
     ck.assumptions += ["sequentially consistent interleavings (TLC); weak-memory reorderings are outside the model",
                        "hook logging discipline of DESIGN 4.2 (release logged before the store, acquire after the load)",
                        "exhaustive bounds: N <= 5 (quick) / N <= 6 (thorough) columns, P <= 3 workers; beyond that validated real traces only"]
     plan = mc_plan(tier, rng)
     run_mc(ck, plan, timeout=600 if tier == "quick" else 3000)
     sens_ok = model_sensitivity(ck)
+    # behaviours of the scheduling layer (which panel, which first busy descendant, which columns are marked busy)
+    # replayed into the real scheduler / mark_busy_descends: one implementation test per transition of SluSched
+    sp, ssim = sched_plan(tier, rng)
+    pipecheck.run_sched_replay(ck, sp, ssim)
     jobs, out = trace_jobs(ck, tier, rng)
     pipecheck.run_traces(ck, jobs, out)
     # the self-test needs a trace that still exists: record one more
